@@ -6,6 +6,9 @@ import JominiModel.Props.C12
 #print axioms Jomini.Props.C12.C12_utf8
 #print axioms Jomini.Props.C12.C12_valid
 #print axioms Jomini.Props.C12.C12_utf8_borrowed_sound
+#print axioms Jomini.Props.C12.C12_utf8_borrowed_iff
+#print axioms Jomini.Props.C12.C12_utf8_owned_iff
+#print axioms Jomini.Props.C12.C12_utf8_identity_iff
 #print axioms Jomini.Props.C12.C12_bridge_tables
 #print axioms Jomini.Props.C12.C12_bridge_textde_w1252
 #print axioms Jomini.Props.C12.C12_bridge_textde_utf8
